@@ -95,6 +95,24 @@ Theorem C13_completed_create_is_cooler :
 Proof. exact completed_create_is_cooler. Qed.
 Print Assumptions C13_completed_create_is_cooler.
 
+(** every run whose iterations all succeed completes, whatever the file, mode and destination *)
+Theorem C13_run_completes :
+  forall (m : mode) (dest : path) (oks : list bool) (f : file),
+  forallb (fun b => b) oks = true -> snd (run dest (create_steps m oks) f) = true.
+Proof. exact run_completes. Qed.
+Print Assumptions C13_run_completes.
+
+(** the step machine and the functional model of create (the one C01's round-trip theorems are about) agree on
+    which streams are accepted: so "creation stops" in this file means exactly "create returns an error" there *)
+Theorem C13_machine_completes_iff_create_ok :
+  forall (V : Type) (dflt : key * V) (fits : key * V -> bool) (count : option (key * V -> Z))
+         (m : mode) (dest : path) (n : Z) (su tc es : bool) (chunks : list (list (key * V))) (f : file),
+  zlen (concat chunks) <= max_size n su ->
+  (snd (create_machine m dest (validate_pixels n true (tc && su) true es) fits (map Some chunks) f) = true
+   <-> exists c, create dflt fits count n su true tc true es chunks = inr c).
+Proof. exact @machine_completes_iff_create_ok. Qed.
+Print Assumptions C13_machine_completes_iff_create_ok.
+
 (** non-vacuity: a file with two collections /1 (cooler) and /2 (cooler) and a plain group /3; destination /3/7 *)
 Definition ex_file : file :=
   [([], {| g_format := false; g_content := 10 |}); ([1], {| g_format := true; g_content := 11 |});
